@@ -304,11 +304,12 @@ theorem sound_raw (env : Env) (orc : Nat → Val → Raw) (hw : WfEnv env) :
     · exact Or.inr (ih3 hns.2 hwf hp h2)
   all_goals (intros; trivial)
 
-/-- semantic guard for top-level string annotations: a matching (base-)class name identifies the class the context
-    binds to that name.  Its complement is the region `strAnnNameCollision`. -/
+/-- semantic guard for top-level string annotations whose name is NOT a class of the context: such a name is compared with
+    the class names of the value's MRO, so the guard says that no class carries a name the context does not know.  (A string
+    annotation that names a class of the context needs no guard: it is checked with isinstance against that class.)  The
+    complement of the guard is outside the vocabulary of C01 ("forward references naming a class"). -/
 def StrAnnGuard (env : Env) : Prop :=
-  ∀ (t : ClsId) (n : NameId), (env.name t = n ∨ env.baseName t = some n) →
-    ∃ c, env.ctx n = some c ∧ env.sub t c = true
+  ∀ (t : ClsId) (n : NameId), env.ctx n = Option.none → (env.mroNames t).contains n = false
 
 
 /-- soundness of `_check_type` (the statement of C01; restated in Props/C01.lean) -/
@@ -319,24 +320,13 @@ theorem sound_checkType (env : Env) (orc : Nat → Val → Raw) (hw : WfEnv env)
   cases a
   case none => simp_all [checkType, conforms]
   case strAnn n =>
-    simp only [checkType] at h
+    simp only [checkType, cfg_strBranch.1, ↓reduceIte] at h
     simp only [conforms]
-    split at h
-    · rename_i hb
-      simp only [cfg_strGuard, ↓reduceIte] at h
-      split at h <;> simp at h
-      rename_i hname
-      obtain ⟨c, hc, hsub⟩ := hs _ _ (Or.inl (by simpa using hname))
-      simp [hc, hsub]
-    · rename_i bn hb
-      split at h <;> simp at h
-      rename_i hname
-      have : env.name (v.typeOf env) = n ∨ env.baseName (v.typeOf env) = some n := by
-        simp at hname; rcases hname with h1 | h1
-        · exact Or.inl h1
-        · exact Or.inr (by rw [hb, h1])
-      obtain ⟨c, hc, hsub⟩ := hs _ _ this
-      simp [hc, hsub]
+    cases hc : env.ctx n with
+    | some c => simp only [hc] at h ⊢; split at h <;> simp_all
+    | none =>
+      simp only [hc, strAnnByName, cfg_strBranch.2, ↓reduceIte, hs _ _ hc] at h
+      simp at h
   all_goals (simp only [checkType, wrap_accept] at h; exact (sound_raw env orc hw).1 _ _ v hns hwf hp h)
 
 
